@@ -157,3 +157,10 @@ Definition judge_unified (c : list nranking * list rsnap) : nat :=
         | _ => nranking_eqb (rs_buckets a) (r ++ [missing])
         end) (combine before got) in
   code m spec.
+
+(** C17, "consistent with ranking equality": two rankings are equal exactly when they have the same buckets (as sets) in the same
+    order - empty buckets included *)
+Definition judge_req (c : nranking * nranking * bool * bool) : nat :=
+  let '(a, b, ab, ba) := c in
+  let expected := list_eqb nset_eqb a b in
+  code (Bool.eqb ab expected && Bool.eqb ba expected) (Bool.eqb ab expected && Bool.eqb ba expected).
